@@ -26,3 +26,323 @@ def los(vc):
         vc.assume(abs(vc.dot(q, q) - RE ** 2) > 1e-3)
     vc.ensure("O-C14-los.complete", vc.iff(res, vc.Not(blocked)))
     vc.ensure("O-C14-los.sym", vc.iff(res, f(r2, r1)))
+
+
+# ------------------------------------------------------------------------------------------------
+import numpy as np
+from contracts import common
+from pyvc import sym, spec
+
+FOV = "resonaate.sensors.field_of_view:"
+SU = "resonaate.physics.sensor_utils:"
+MS = "resonaate.physics.measurements:"
+MA = "resonaate.physics.maths:"
+
+
+def _cosang(vc, u, v):
+    return vc.dot(u, v) / (vc.norm(u) * vc.norm(v))
+
+
+@obligation("C14", "conic", ensures=["O-C14-conic.def", "O-C14-conic.reflexive", "O-C14-conic.symmetric"],
+            fns=[FOV + "ConicFoV.inFieldOfView", MA + "subtendedAngle", MA + "safeArccos"], mode="R",
+            note="Gram vectors: the body never reads components, hence depends only on the Gram matrix, which any common rotation (in particular about the local vertical) preserves")
+def conic(vc):
+    p, b = vc.gvec("p"), vc.gvec("b")
+    vc.assume(vc.dot(p, p) > 0)
+    vc.assume(vc.dot(b, b) > 0)
+    cone = vc.real("cone", 0.0, 3.0)
+    fov = vc.new(FOV + "ConicFoV", _cone_angle=cone)
+    res = fov.inFieldOfView(p, b)
+    ang = vc.arccos(_cosang(vc, b, p))
+    vc.ensure("O-C14-conic.def", vc.iff(res, vc.le(ang, cone / 2)))
+    vc.ensure("O-C14-conic.reflexive", fov.inFieldOfView(p, p))
+    vc.ensure("O-C14-conic.symmetric", vc.iff(res, fov.inFieldOfView(b, p)))
+
+
+@obligation("C14", "conic_rot", ensures=["O-C14-conic.rot-vertical"], fns=[FOV + "ConicFoV.inFieldOfView"], mode="R",
+            note="component-wise: both directions rotated about the local vertical (SEZ z axis) by any angle")
+def conic_rot(vc):
+    p = vc.vec("p", 3, -1e5, 1e5)
+    b = vc.vec("b", 3, -1e5, 1e5)
+    vc.assume(vc.dot(p, p) > 1e-6)
+    vc.assume(vc.dot(b, b) > 1e-6)
+    if vc.symbolic:
+        c, s = vc.real("c"), vc.real("s")
+        vc.assume(c * c + s * s == 1)
+    else:
+        th = vc.real("th", -7, 7)
+        c, s = np.cos(th), np.sin(th)
+    cone = vc.real("cone", 0.0, 3.0)
+    rot = lambda v: np.array([c * v[0] + s * v[1], -s * v[0] + c * v[1], v[2]], dtype=object if vc.symbolic else float)
+    fov = vc.new(FOV + "ConicFoV", _cone_angle=cone)
+    pad = lambda v: np.concatenate([v, np.zeros(3)])
+    if not vc.symbolic:  # stay off the rounding band of the boundary
+        ang = np.arccos(np.clip(np.dot(p, b) / np.linalg.norm(p) / np.linalg.norm(b), -1, 1))
+        vc.assume(abs(ang - cone / 2) > 1e-7)
+    vc.ensure("O-C14-conic.rot-vertical", vc.iff(fov.inFieldOfView(pad(p), pad(b)), fov.inFieldOfView(pad(rot(p)), pad(rot(b)))))
+
+
+def _circ_dist(vc, a, b):
+    d = abs(a - b)
+    return vc.ite(d <= vc.pi, d, 2 * vc.pi - d)
+
+
+def _sez_from(az, el, rng=1000.0):
+    return np.array([-rng * np.cos(el) * np.cos(az), rng * np.cos(el) * np.sin(az), rng * np.sin(el), 0.0, 0.0, 0.0])
+
+
+class _Tag:
+    """opaque stand-in for a 6x1 SEZ state whose azimuth/elevation are given by the callee contracts"""
+
+    def __init__(self, az, el):
+        self.az, self.el = az, el
+
+
+@obligation("C14", "rect", ensures=["O-C14-rect.offset-only"], fns=[FOV + "RectangularFoV.inFieldOfView"], mode="R",
+            note="modular: getAzimuth/getElevation by contract (ranges [0,2pi), [-pi/2,pi/2]); membership must be a function of the circular azimuth offset and the elevation offset")
+def rect(vc):
+    two_pi = 2 * vc.pi
+    az_p = vc.angle("az_p", 0.0, 6.283, special=[0.0, 0.01, 6.27])
+    az_b = vc.angle("az_b", 0.0, 6.283, special=[0.0, 0.01, 6.27])
+    el_p = vc.angle("el_p", -1.5, 1.5)
+    el_b = vc.angle("el_b", -1.5, 1.5)
+    vc.assume(az_p < two_pi)
+    vc.assume(az_b < two_pi)
+    A = vc.angle("A", 0.0, 3.1)
+    E = vc.angle("E", 0.0, 3.1)
+    fov = vc.new(FOV + "RectangularFoV", _azimuth_angle=A, _elevation_angle=E)
+    if vc.symbolic:
+        vc.stub(MS + "getAzimuth", lambda t: t.az)
+        vc.stub(MS + "getElevation", lambda t: t.el)
+        p, b = _Tag(az_p, el_p), _Tag(az_b, el_b)
+    else:
+        p, b = _sez_from(az_p, el_p), _sez_from(az_b, el_b)
+        vc.assume(abs(_circ_dist(vc, az_p, az_b) - A / 2) > 1e-6 and abs(abs(el_p - el_b) - E / 2) > 1e-6)
+    res = fov.inFieldOfView(p, b)
+    spec_in = vc.And(vc.le(_circ_dist(vc, az_p, az_b), A / 2), vc.le(abs(el_p - el_b), E / 2))
+    vc.ensure("O-C14-rect.offset-only", vc.iff(res, spec_in))
+
+
+@obligation("C14", "rect_spec_lemma", ensures=["O-C14-rect.spec-rotation-invariant"], fns=[], mode="R", norm_angles=True,
+            note="lemma over the specification only: the circular offset is unchanged when both azimuths are advanced by any angle and re-wrapped to [0,2pi) - i.e. the spec of O-C14-rect.offset-only has the symmetry the property asks for, seam included")
+def rect_spec_lemma(vc):
+    az_p = vc.angle("az_p", 0.0, 6.283)
+    az_b = vc.angle("az_b", 0.0, 6.283)
+    th = vc.angle("th", -100.0, 100.0)
+    two_pi = 2 * vc.pi
+    vc.assume(az_p < two_pi)
+    vc.assume(az_b < two_pi)
+    wrap = (lambda x: x - two_pi * vc.floor(x / two_pi))
+    d0 = _circ_dist(vc, az_p, az_b)
+    d1 = _circ_dist(vc, wrap(az_p + th), wrap(az_b + th))
+    vc.ensure("O-C14-rect.spec-rotation-invariant", vc.eq(d0, d1, 1e-6))
+
+
+SB = "resonaate.sensors.sensor_base:"
+
+
+class _NS:
+    def __init__(self, **kw):
+        self.__dict__.update(kw)
+
+
+def _los_stub(a, b):
+    """lineOfSight by contract: a deterministic boolean of its two arguments (O-C14-los.*)."""
+    return sym.SBool(z3.Bool("los"))
+
+
+import z3  # noqa: E402
+
+
+@obligation("C14", "masks", ensures=["O-C14-azmask.arc", "O-C14-elmask", "O-C14-vis.order"], fns=[SB + "Sensor.isVisible"],
+            mode="R", note="modular: getRange/getAzimuth/getElevation/lineOfSight by contract; result and stated reason follow the documented order range-min, range-max, LOS, elevation, azimuth; azimuth accepted iff on the arc from a0 increasing to a1 (corner az=0 with a1=2pi, a0>0 excluded: measure zero)")
+def masks(vc):
+    az = vc.angle("az", 0.0, 6.283, special=[0.0, 0.05, 6.2])
+    el = vc.angle("el", -1.57, 1.57)
+    vc.assume(az < 2 * vc.pi)
+    a0 = vc.angle("a0", 0.0, 6.2831853, special=[0.0, 6.0])
+    a1 = vc.angle("a1", 0.0, 6.2831853, special=[0.1, 6.2])
+    e0 = vc.angle("e0", -1.57, 1.57)
+    e1 = vc.angle("e1", -1.57, 1.57)
+    rng = vc.real("rng", 1.0, 1e6)
+    rmin = vc.real("rmin", 0.0, 1e6)
+    rmax = vc.real("rmax", 0.0, 1e6)
+    vc.assume(vc.Not(vc.And(az == 0, a1 >= 2 * vc.pi, a0 > 0)) if vc.symbolic else True)
+    dt = object if vc.symbolic else float
+    if vc.symbolic:
+        vc.stub(MS + "getAzimuth", lambda t: t.az)
+        vc.stub(MS + "getElevation", lambda t: t.el)
+        vc.stub(MS + "getRange", lambda t: t.rng)
+        vc.stub(SU + "lineOfSight", _los_stub)
+        los = sym.SBool(z3.Bool("los"))
+        sez = _Tag(az, el)
+        sez.rng = rng
+        tgt = np.zeros(6)
+        host = _NS(eci_state=np.zeros(6))
+    else:
+        sez = _sez_from(az, el, rng)
+        # geometry giving the requested line-of-sight outcome: sensor on +x axis at 7000 km
+        want_los = vc.bool("los")
+        host = _NS(eci_state=np.array([7000.0, 0, 0, 0, 0, 0]))
+        tgt = np.array([8000.0, 0, 0, 0, 0, 0]) if want_los else np.array([-8000.0, 0, 0, 0, 0, 0])
+        los = want_los
+        vc.assume(abs(rng - rmin) > 1e-6 and abs(rng - rmax) > 1e-6 and min(abs(el - e0), abs(el - e1), abs(az - a0), abs(az - a1)) > 1e-9)
+    s = vc.new(SB + "Sensor", _az_mask=np.array([a0, a1], dtype=dt), _el_mask=np.array([e0, e1], dtype=dt),
+               minimum_range=rmin, maximum_range=rmax, _host=host)
+    E = vc.fn(SB + "Explanation") if not vc.symbolic else __import__("resonaate.sensors.sensor_base", fromlist=["Explanation"]).Explanation
+    ok, why = s.isVisible(tgt, 1.0, 0.2, sez)
+    span = vc.ite(a0 <= a1, a1 - a0, a1 - a0 + 2 * vc.pi)
+    off = vc.ite(az >= a0, az - a0, az - a0 + 2 * vc.pi)
+    az_ok = off <= span
+    el_ok = vc.And(e0 <= el, el <= e1)
+    pre_ok = vc.And(rng >= rmin, rng <= rmax, los)
+    vc.ensure("O-C14-azmask.arc", vc.implies(vc.And(pre_ok, el_ok), vc.iff(ok, az_ok)))
+    vc.ensure("O-C14-elmask", vc.implies(pre_ok, vc.implies(ok, el_ok)))
+    # stated reason = first failing constraint in the documented order
+    exp = vc.ite(rng < rmin, 1, vc.ite(rng > rmax, 2, vc.ite(vc.Not(los), 3, vc.ite(vc.Not(el_ok), 4, vc.ite(vc.Not(az_ok), 5, 0)))))
+    code = {E.MINIMUM_RANGE: 1, E.MAXIMUM_RANGE: 2, E.LINE_OF_SIGHT: 3, E.ELEVATION_MASK: 4, E.AZIMUTH_MASK: 5, E.VISIBLE: 0}[why]
+    vc.ensure("O-C14-vis.order", vc.And(exp == code, vc.iff(ok, code == 0)))
+
+
+@obligation("C14", "elevation", ensures=["O-C14-el.range", "O-C14-el.def"], fns=[MS + "getElevation"], mode="R")
+def elevation(vc):
+    r = vc.vec("r", 3, -1e5, 1e5)
+    vc.assume(vc.dot(r, r) > 1e-6)
+    sez = np.concatenate([r, np.zeros(3)])
+    el = vc.fn(MS + "getElevation")(sez)
+    vc.ensure("O-C14-el.range", vc.And(vc.le(-vc.pi / 2, el), vc.le(el, vc.pi / 2)))
+    vc.ensure("O-C14-el.def", vc.eq(vc.sin(el) * vc.norm(r), r[2], 1e-9))
+
+
+@obligation("C14", "azimuth", ensures=["O-C14-az.range", "O-C14-az.def"], fns=[MS + "getAzimuth", MS + "getElevation"],
+            mode="R", note="modular: wrapAngle2Pi by its proved contract; az is the polar angle of (-x, y): sin(az)*h = y, cos(az)*h = -x")
+def azimuth(vc):
+    vc.stub(MA + "wrapAngle2Pi", common.WRAP2PI)
+    r = vc.vec("r", 3, -1e5, 1e5)
+    v = vc.vec("v", 3, -10, 10)
+    h2 = r[0] * r[0] + r[1] * r[1]
+    vc.assume(h2 > 1e-6)  # off the zenith axis
+    sez = np.concatenate([r, v])
+    az = vc.fn(MS + "getAzimuth")(sez)
+    vc.ensure("O-C14-az.range", vc.And(vc.le(0, az), vc.lt(az, 2 * vc.pi)))
+    h = vc.sqrt(h2)
+    vc.ensure("O-C14-az.def", vc.And(vc.eq(vc.sin(az) * h, r[1], 1e-9), vc.eq(vc.cos(az) * h, -r[0], 1e-9)))
+
+
+RE_ATM = 6378.1363 + 100.0
+
+
+@obligation("C14", "limb", ensures=["O-C14-limb.cone", "O-C14-limb.raises"], fns=[SU + "checkSpaceSensorEarthLimbObscuration", SU + "getBodyLimbConeAngle"],
+            mode="R", note="obscured <=> angle of the target direction from nadir < tangent-cone half angle arcsin((R_E+h_atm)/d); getElevation by contract")
+def limb(vc):
+    pos = vc.gvec("pos")
+    d2 = vc.dot(pos, pos)
+    vc.assume(d2 > 1.0)
+    el = vc.angle("el", -1.5707, 1.5707)
+    if vc.symbolic:
+        vc.stub(MS + "getElevation", lambda t: t.el)
+        sez = _Tag(None, el)
+    else:
+        sez = _sez_from(0.3, el)
+    d = vc.norm(pos)
+    f = vc.fn(SU + "checkSpaceSensorEarthLimbObscuration")
+    if (d < RE_ATM) if not vc.symbolic else bool(d < RE_ATM):
+        try:
+            f(pos, sez)
+            raised = False
+        except ValueError:
+            raised = True
+        vc.ensure("O-C14-limb.raises", raised)
+        return
+    res = f(pos, sez)
+    nadir_angle = el + vc.pi / 2
+    cone = vc.arcsin(RE_ATM / d)
+    if not vc.symbolic:
+        vc.assume(abs(nadir_angle - cone) > 1e-9)
+    vc.ensure("O-C14-limb.cone", vc.iff(res, nadir_angle < cone))
+    vc.ensure("O-C14-limb.raises", True)
+
+
+@obligation("C14", "light_ground", ensures=["O-C14-light.ground.def", "O-C14-light.ground.dark"], fns=[SU + "checkGroundSensorLightingConditions"], mode="R",
+            note="ok <=> Sun zenith angle >= pi/2 + buffer; in particular ok implies the Sun is below the local horizon")
+def light_ground(vc):
+    pos, sun = vc.gvec("pos"), vc.gvec("sun")
+    vc.assume(vc.dot(pos, pos) > 1.0)
+    vc.assume(vc.eq(vc.dot(sun, sun), 1.0) if vc.symbolic else True)
+    if not vc.symbolic:
+        sun = sun / np.linalg.norm(sun)
+    buf = vc.angle("buf", 0.0, 1.5)
+    res = vc.fn(SU + "checkGroundSensorLightingConditions")(pos, sun, buf)
+    cz = vc.dot(sun, pos) / vc.norm(pos)
+    zen = vc.arccos(cz)
+    if not vc.symbolic:
+        vc.assume(abs(zen - (np.pi / 2 + buf)) > 1e-9)
+    vc.ensure("O-C14-light.ground.def", vc.iff(res, zen >= vc.pi / 2 + buf))
+    vc.ensure("O-C14-light.ground.dark", vc.implies(res, vc.le(cz, 0)))
+
+
+@obligation("C14", "light_space", ensures=["O-C14-light.space.def", "O-C14-light.galactic.def"],
+            fns=[SU + "checkSpaceSensorLightingConditions", SU + "checkGalacticExclusionZone"], mode="R",
+            note="ok <=> angle between boresight and the Sun (resp. galactic centre) direction >= exclusion cone")
+def light_space(vc):
+    bore, sun = vc.gvec("bore"), vc.gvec("sun")
+    vc.assume(vc.dot(bore, bore) > 1e-6)
+    vc.assume(vc.eq(vc.dot(sun, sun), 1.0) if vc.symbolic else True)
+    if not vc.symbolic:
+        sun = sun / np.linalg.norm(sun)
+    cone = vc.angle("cone", 0.0, 1.5)
+    res = vc.fn(SU + "checkSpaceSensorLightingConditions")(bore, sun, cone)
+    ang = vc.arccos(vc.dot(sun, bore) / vc.norm(bore))
+    if not vc.symbolic:
+        vc.assume(abs(ang - cone) > 1e-9)
+    vc.ensure("O-C14-light.space.def", vc.iff(res, ang >= cone))
+    # galactic centre: the fixed ECI direction of the module constant
+    b = vc.vec("b", 3, -1e5, 1e5)
+    vc.assume(vc.dot(b, b) > 1e-6)
+    import resonaate.physics.sensor_utils as su
+    g = np.array([float(x) for x in su.GALACTIC_CENTER_ECI[:3]])
+    res2 = vc.fn(SU + "checkGalacticExclusionZone")(b, cone)
+    gn = float(np.linalg.norm(g))
+    ang2 = vc.arccos(vc.dot(g, b) / (gn * vc.norm(b)))
+    if not vc.symbolic:
+        vc.assume(abs(ang2 - cone) > 1e-9)
+    vc.ensure("O-C14-light.galactic.def", vc.iff(res2, ang2 >= cone))
+
+
+RSUN = 695700.0
+
+
+@obligation("C14", "sunfrac", ensures=["O-C14-sunfrac.sunward", "O-C14-sunfrac.umbra", "O-C14-sunfrac.clear", "O-C14-sunfrac.angles"],
+            fns=[SU + "calculateSunVizFraction"], mode="R", domain_checks=True,
+            note="exactly 1 on the sunward side and when the discs do not overlap, exactly 0 when the solar disc is inside the Earth disc; sunfrac.domain: every arcsin/arccos/sqrt argument of the real body (partial branch included) is inside its domain, so the result is a number")
+def sunfrac(vc):
+    import resonaate.physics.bodies.third_body as tb
+    from fractions import Fraction
+    rs = float(tb.Sun.radius)
+    r, s = vc.gvec("r"), vc.gvec("s")
+    vc.assume(vc.dot(r, r) >= Fraction(RE) ** 2)  # exact square (RE**2 as a double is slightly smaller)
+    d = s - r
+    vc.assume(vc.dot(d, d) >= Fraction(rs) ** 2)
+    # the property's domain: satellite within 10 Earth radii (margin: 11), Sun at a realistic distance.
+    # (outside it the partial-occultation branch divides by c, which is 0 on the anti-solar axis where a == b)
+    vc.assume(vc.dot(r, r) <= Fraction(11 * RE) ** 2)
+    vc.assume(vc.dot(s, s) >= Fraction(1.4e8) ** 2)
+    if not vc.symbolic:
+        s = s * (1.5e8 / np.linalg.norm(s))
+        r = r * (min(np.linalg.norm(r), 10.9 * RE) / np.linalg.norm(r))
+        vc.assume(np.linalg.norm(r) >= RE)
+        d = s - r
+    with vc.spec():
+        nr, nd, ns = vc.norm(r), vc.norm(d), vc.norm(s)
+        a = vc.arcsin(rs / nd)
+        b = vc.arcsin(RE / nr)
+        c = vc.arccos(vc.dot(-r, d) / (nr * nd))
+    # cut: the three apparent angles are well defined and positive / non-negative
+    vc.cut("O-C14-sunfrac.angles", vc.And(a > 0, b > 0, vc.le(0, c), vc.le(a, vc.pi / 2), vc.le(b, vc.pi / 2), vc.le(c, vc.pi),
+                                          vc.le(rs / nd, 1), vc.le(RE / nr, 1), vc.le(abs(vc.dot(-r, d) / (nr * nd)), 1, 1e-12)))
+    f = vc.fn(SU + "calculateSunVizFraction")
+    frac = f(r, s)
+    sunward = ns >= nd
+    vc.ensure("O-C14-sunfrac.sunward", vc.implies(sunward, vc.eq(frac, 1.0)))
+    vc.ensure("O-C14-sunfrac.umbra", vc.implies(vc.And(vc.Not(sunward), c < abs(b - a)), vc.eq(frac, 0.0)))
+    vc.ensure("O-C14-sunfrac.clear", vc.implies(vc.And(vc.Not(sunward), c >= a + b), vc.eq(frac, 1.0)))
